@@ -55,9 +55,11 @@ pub fn pparams(
 ) -> tx3_cardano::PParams {
     let mut cost_models = HashMap::new();
     if with_cost_models {
+        // one cost model per Plutus version, all different (the language view of the script data hash depends on
+        // which one is used)
         cost_models.insert(0u8, COST_MODEL.to_vec());
-        cost_models.insert(1u8, COST_MODEL.to_vec());
-        cost_models.insert(2u8, COST_MODEL.to_vec());
+        cost_models.insert(1u8, COST_MODEL.iter().map(|x| x + 1).collect());
+        cost_models.insert(2u8, COST_MODEL.iter().map(|x| x + 2).collect());
     }
     tx3_cardano::PParams {
         network: if mainnet {
